@@ -1,0 +1,50 @@
+//go:build verif
+
+package semap
+
+// VerifKeyState reports, for one key, the tokens currently held, the number of
+// queued waiters and whether the container has an entry for the key.
+func VerifKeyState(m SemMapper, key interface{}) (held, waiters int, present bool) {
+	var s *SemMap
+	switch v := m.(type) {
+	case *SemMap:
+		s = v
+	case *WideSemMap:
+		s = v.calculateKey(key)
+	default:
+		return 0, 0, false
+	}
+	s.mux.Lock()
+	defer s.mux.Unlock()
+	var w, ok = s.m[key]
+	if !ok {
+		return 0, 0, false
+	}
+	return w.cur, w.waiters.Len(), true
+}
+
+// VerifEntries number of live per-key entries over all shards
+func VerifEntries(m SemMapper) int {
+	var n int
+	switch v := m.(type) {
+	case *SemMap:
+		v.mux.Lock()
+		n = len(v.m)
+		v.mux.Unlock()
+	case *WideSemMap:
+		for _, s := range v.ms {
+			s.mux.Lock()
+			n += len(s.m)
+			s.mux.Unlock()
+		}
+	}
+	return n
+}
+
+// VerifShard index of the shard a key is routed to (0 for the single map)
+func VerifShard(m SemMapper, key interface{}) int {
+	if v, ok := m.(*WideSemMap); ok {
+		return v.calKeyFn(key)
+	}
+	return 0
+}
